@@ -12,12 +12,12 @@ import (
 
 func init() {
 	Register(&Rule{ID: "R-PAR-1", Props: []string{"C13", "C12", "C03", "C04", "C17", "C15", "C02", "C05", "C19"}, Floor: 25,
-		Doc:      "lockset consistency: in every concurrent region of lib/query (operands of `go`, callbacks handed to the task runners) each write to memory reachable from a shared root is index-partitioned by the task index, or every conflicting access in a concurrently running region holds a common mutex; sync/atomic/channel/sync.Pool operations are exempt",
-		Controls: []string{"CtlSharedCounterRace", "ctlBox).set"},
+		Doc:      "lockset consistency: in every concurrent region of lib/query (operands of `go`, callbacks handed to the task runners — a function with a go statement whose goroutine calls one of the function's func parameters, received as an argument, captured, or read from a field of a struct the function built and gave to the goroutine as an argument, receiver or captured variable) each write to memory reachable from a shared root is index-partitioned by the task index, or every conflicting access in a concurrently running region holds a common mutex; sync/atomic/channel/sync.Pool operations are exempt",
+		Controls: []string{"CtlSharedCounterRace", "ctlBox).set", "CtlCapturedStructRunnerCallbackRace"},
 		Run:      rulePar1})
 	Register(&Rule{ID: "R-PAR-3", Props: []string{"C12"}, Floor: 25,
 		Doc:      "no order-accumulating effect in a multi-instance region: an append to a shared slice (even under a mutex) records the order in which goroutines happened to arrive, so the result depends on the schedule",
-		Controls: []string{"CtlLockedAppendOrder"},
+		Controls: []string{"CtlLockedAppendOrder", "CtlStructRunnerCallbackAppendOrder"},
 		Run:      rulePar3})
 }
 
